@@ -1,6 +1,8 @@
 CONSTANTS
   Names = {}
   Toks = {}
+  LfBig = FALSE
+  QDevs = {"delexact", "parseshift"}
 INIT TInit
 NEXT TNext
 POSTCONDITION Accepted
